@@ -58,6 +58,7 @@ func checkC07(c *Ctx) {
 	c.grantedQosCap()
 	// the acknowledgement can be written at every size: Len() of the responses sizes the header for the new remaining length
 	c.lenOrdering()
+	c.decodeKeepsEveryFilter()
 }
 
 // afterNever: no b after a (within the case).
@@ -546,4 +547,66 @@ func sameExpr(p, q ssa.Value) bool {
 		return false
 	}
 	return false
+}
+
+// decodeKeepsEveryFilter: the SUBACK carries one return code per requested filter, in request order, so
+// the decoder of SUBSCRIBE (and of UNSUBSCRIBE) must keep every list entry of the packet: each iteration
+// of its decode loop appends exactly one element to the filter list (and to the QoS list) on every path
+// that goes on to the next entry.
+func (c *Ctx) decodeKeepsEveryFilter() {
+	for _, tn := range []string{"SubscribeMessage", "UnsubscribeMessage"} {
+		fn := c.P.Func("message", tn, "Decode")
+		if fn == nil {
+			c.R.Unresolved("message." + tn + ".Decode")
+			continue
+		}
+		var loop *ir.Loop
+		for _, l := range ir.Loops(fn) {
+			for b := range l.Blocks {
+				for _, in := range b.Instrs {
+					if call, ok := in.(*ssa.Call); ok && ir.IsFunc(call.Common(), pkgMessage, "readLPBytes") {
+						loop = l
+					}
+				}
+			}
+		}
+		key := tn + ".Decode:keeps-every-listed-filter"
+		if loop == nil {
+			c.R.Bad(ruleP4, key, c.P.Pos(fn.Pos()), "no decode loop over the packet's filter list")
+			continue
+		}
+		want := []string{"topics"}
+		if tn == "SubscribeMessage" {
+			want = append(want, "qos")
+		}
+		var bad []string
+		for _, f := range want {
+			var stores []*ssa.Store
+			for b := range loop.Blocks {
+				for _, in := range b.Instrs {
+					st, ok := in.(*ssa.Store)
+					if !ok {
+						continue
+					}
+					p := ir.PathOf(st.Addr)
+					if len(p.Fields) == 0 || p.Fields[len(p.Fields)-1] != f {
+						continue
+					}
+					if call, ok := st.Val.(*ssa.Call); ok {
+						if bi, ok := call.Common().Value.(*ssa.Builtin); ok && bi.Name() == "append" {
+							stores = append(stores, st)
+						}
+					}
+				}
+			}
+			if len(stores) != 1 {
+				bad = append(bad, fmt.Sprintf("%d appends to %s in the loop (expected one per entry)", len(stores), f))
+				continue
+			}
+			if p := loopPathAvoiding(loop, stores[0]); p != "" {
+				bad = append(bad, "an iteration can go on to the next entry without appending to "+f+" ("+p+")")
+			}
+		}
+		c.R.Check(len(bad) == 0, ruleP4, key, c.P.Pos(fn.Pos()), "every entry of the packet is appended to the decoded lists", tn+".Decode drops or merges entries of the packet ("+joinStr(bad, "; ")+"): the acknowledgement carries fewer return codes than the request has filters, out of request order")
+	}
 }
